@@ -18,6 +18,7 @@
 #
 # NIFTy is being developed at the Max-Planck-Institut fuer Astrophysik.
 
+import os
 import pickle
 from functools import reduce
 from os import makedirs
@@ -428,14 +429,21 @@ def optimize_kl(likelihood_energy,
                     overwrite=True)
 
             if _MPI_master(comm(iglobal)):
-                with open(join(output_directory, "last_finished_iteration"), "w") as f:
-                    f.write(str(iglobal))
                 _pickle_save_values(iglobal, 'energy_history', energy_history)
                 if plot_energy_history:
                     _plot_energy_history(iglobal, energy_history)
         _barrier(comm(iglobal))
 
         _minisanity(lh, iglobal, sl, comm, plot_minisanity_history)
+        _barrier(comm(iglobal))
+
+        # Mark the iteration as finished only after everything `resume` needs has
+        # been written, and replace the marker atomically
+        if output_directory is not None and _MPI_master(comm(iglobal)):
+            lfile_tmp = join(output_directory, "last_finished_iteration.tmp")
+            with open(lfile_tmp, "w") as f:
+                f.write(str(iglobal))
+            os.replace(lfile_tmp, join(output_directory, "last_finished_iteration"))
         _barrier(comm(iglobal))
 
         _counting_report(count, iglobal, comm)
